@@ -146,10 +146,60 @@ func c15RunSelf(c *core.Ctx) {
 	}
 }
 
+// c15RunNested: while the destination's push policy is being consulted (i.e. in the middle of a Transfer) it runs
+// another Transfer between two unrelated stacks. Each Transfer is its own affair.
+func c15RunNested(c *core.Ctx) {
+	r := c.Rng
+	n := r.Range(2, 6)
+	src := NewStack(Kinds[r.Intn(5)], 0)
+	var want []any
+	for i := 0; i < n; i++ {
+		v := fmt.Sprintf("s%d", i)
+		src.Push(v)
+		want = append(want, v)
+	}
+	queue, archive := stackage.List().Push("q0", "q1", "q2"), stackage.Basic().Push("a0")
+	innerOK, innerRuns := true, 0
+	dst := NewStack(Kinds[r.Intn(5)], 0).Push("d0")
+	trigger := want[r.Intn(n)]
+	dst.SetPushPolicy(func(x ...any) error {
+		if len(x) == 1 && x[0] == trigger {
+			innerRuns++
+			innerOK = queue.Transfer(archive) && archive.Len() == 1+3*innerRuns
+		}
+		return nil
+	})
+	desc := map[string]any{"src_len": n, "trigger": trigger}
+	var ok bool
+	if p, msg, site := Guard(func() { ok = src.Transfer(dst) }); p {
+		c.Violatef("panic:"+site+":nested-transfer", desc, "Transfer panicked: %s", msg)
+		return
+	}
+	c.Count("nested-transfer")
+	if !innerOK {
+		c.Violatef("wrong-content:inner", desc, "the Transfer run from inside the destination's push policy failed or miscounted (archive holds %d)", archive.Len())
+		return
+	}
+	if ok {
+		got := contentOf(dst)
+		if !sameContent(append([]any{"d0"}, want...), got) {
+			c.Violatef("wrong-content", desc, "Transfer returned true; destination holds %s, expected d0 followed by %s", showList(got), showList(want))
+			return
+		}
+	}
+	if !sameContent(want, contentOf(src)) {
+		c.Violatef("source-changed", desc, "source changed: %s", showList(contentOf(src)))
+	}
+}
+
 func c15RunLarge(c *core.Ctx) {
 	r := c.Rng
 	if r.Chance(1, 4) {
 		c15RunSelf(c)
+		return
+	}
+	if r.Chance(1, 5) {
+		c15RunNested(c)
 		return
 	}
 	n := []int{1, 8, 63, 64, 65, 100, 128, 200}[r.Intn(8)]
